@@ -288,3 +288,42 @@ func maxName(ds []*Decl) int {
 	})
 	return m
 }
+
+// dupNames makes declaration names collide: every declaration takes, with probability p, the name
+// of a random other declaration (same-named groups under different parents with different leading
+// records, same-named records in different groups, a group and a record sharing a name, same-named
+// siblings); with edi, a group sometimes takes the name of a segment.  Declarations are identified
+// by position everywhere in the harness and the model; the name is only a label.
+func dupNames(r *vh.Rng, ds []*Decl, p float64, edi bool) bool {
+	var all []*Decl
+	walk(ds, func(d *Decl) { all = append(all, d) })
+	if len(all) < 2 {
+		return false
+	}
+	names := make([]int, len(all))
+	for i, d := range all {
+		names[i] = d.Name
+	}
+	changed := false
+	for i, d := range all {
+		if !r.Chance(p) {
+			continue
+		}
+		j := r.Pick(len(all))
+		if j == i {
+			j = (j + 1) % len(all)
+		}
+		if edi && !d.Group {
+			continue // an EDI segment declaration is named by its segment
+		}
+		nm := names[j]
+		if edi && !all[j].Group {
+			nm = all[j].Leaf.N
+		}
+		if nm != d.Name {
+			d.Name = nm
+			changed = true
+		}
+	}
+	return changed
+}
